@@ -33,10 +33,14 @@ def floors(tier):
     return {"compile:runs": 3000, "compile:ops_observed": 20000, "backend:StabilizerCompiler": 1000, "backend:DensityMatrixCompiler": 1000,
             "measure:random": 100, "measure:deterministic": 100, "outcome:0": 100, "outcome:1": 100, "shape:gate_after_reset": 20,
             "setting:0": 500, "setting:1": 500, "setting:probabilistic": 500, "initial_state:given": 200, "programs:with_insert_at": 100,
-            "kind:MR": 100, "kind:MZ": 100, "kind:cCNOT": 50, "kind:cCZ": 50, "kind:W": 200, "kind:CZ": 100, "programs:one_qubit": 5}
+            "kind:MR": 100, "kind:MZ": 100, "kind:cCNOT": 50, "kind:cCZ": 50, "kind:W": 200, "kind:CZ": 100, "programs:one_qubit": 5, "programs:large_n": 30}
 
 
 def gen_program(rng, nmax, lmax):
+    if rng.random() < 0.12:
+        # large registers, long programs: stabilizer backend only, judged by stabilizer-group equality
+        n_e, n_p = int(rng.integers(2, 7)), int(rng.integers(4, 9))
+        return programs.random_program(rng, n_e, n_p, int(rng.integers(1, 4)), int(rng.integers(40, 3 * lmax + 1)))
     while True:
         n_e, n_p = int(rng.integers(0, 4)), int(rng.integers(0, 4))
         if 1 <= n_e + n_p <= nmax:
@@ -90,8 +94,12 @@ def run_program(pseed, nmax, lmax, ctx, mon, state, only=None):
     n = prog.n_q
     configs = []
     for backend in ("StabilizerCompiler", "DensityMatrixCompiler"):
+        if backend == "DensityMatrixCompiler" and n > 7:
+            continue
         for det in (0, 1, "probabilistic", "probabilistic"):
             configs.append((backend, det))
+    if n > 7:
+        ctx.count("programs:large_n")
     use_init = rng.random() < 0.25
     init_group = pauli.random_stabilizer_group(rng, n) if use_init else None
     for ci, (backend, det) in enumerate(configs):
